@@ -17,7 +17,7 @@ plan('C14',
                                   'clients are raw POSIX sockets in harness threads; a client that got its echo must see EOF within 30 s of wall-clock time (the library closes the socket in the same thread right after serve() returns)',
                                   'a Unix-socket server\'s path disappears when the first accepted connection is destroyed (observed, outside the statement): later Unix clients fail to connect and are not "accepted connections"',
                                   'TSan suppressions cover only SocketServer::stop / running (plain bool flags polled across opaque calls); their behaviour is what the event-log checker decides'])
-T('C14', 'offline checker over a totally ordered event log (hook-observed accepts, serve entries/exits, client echoes/EOFs, stop/destroy) across generated server histories with seeded jitter, under ASan, TSan and -O2',
+T('C14', 'offline checker over a totally ordered event log (hook-observed accepts, serve entries/exits, client echoes/EOFs, stop/destroy) across generated server histories (two-step and long-handler shutdowns, two endpoints, signals, descriptor 0) with seeded jitter, under ASan, TSan and -O2',
   'Each history runs the real SocketServer with real loopback/Unix clients; conservation accepted = served = returned, exactly-once per token, nothing after stop(true) returned, running() false, '
   'socket valid inside serve() and closed after it are checked on the log; ASan observes any thread touching the server after destruction.',
   'Trusts the log\'s mutex order, gcc ASan/TSan, loopback networking of the sandbox.')
